@@ -258,6 +258,50 @@ case_hdiff_special(long idx, void *ctx)
     mc_count("hdiff_special_cases", 1);
 }
 
+/* 24-bit images written by the single-file interface with pixel, line and plane interlace (plus an 8-bit image): hdiff is
+   reflexive on them, silent on an equal copy and flags a changed pixel component */
+static void
+case_hdiff_df24(long idx, void *ctx)
+{
+    (void)ctx;
+    int il = (int)(idx % 3), w = idx / 3 % 2 ? 7 : 5, h = 4;
+    int cfg[2] = {6, (int)idx};
+    mc_set_config(cfg, 2, "family=hdiff-df24");
+    snprintf(g_case, sizeof g_case, "%dx%d 24-bit image written by DF24 with interlace %d and an 8-bit image", w, h, il);
+    mc_set_case("%s", g_case);
+    tc_workdir("C19", 5000 + idx);
+    static const char *NAME[3] = {"a.hdf", "b.hdf", "c.hdf"};
+    for (int k = 0; k < 3; k++) {
+        uint8 px[7 * 4 * 3], r8[7 * 4];
+        for (int i = 0; i < w * h * 3; i++)
+            px[i] = (uint8)(i * 7 + 11);
+        for (int i = 0; i < w * h; i++)
+            r8[i] = (uint8)(i * 3 + 1);
+        if (k == 2)
+            px[w * h * 3 / 2] ^= 0x20;
+        DF24restart();
+        if (DF24setil(il) == FAIL || DF24addimage(tc_path(NAME[k]), px, w, h) == FAIL || DFR8addimage(tc_path(NAME[k]), r8, w, h, 0) == FAIL) {
+            mc_harness_error("cannot write the DF24 file");
+            return;
+        }
+    }
+    char *a1[] = {"a.hdf", "a.hdf", NULL}, *a2[] = {"a.hdf", "b.hdf", NULL}, *a3[] = {"a.hdf", "c.hdf", NULL}, *a4[] = {"c.hdf", "a.hdf", NULL}, *o[4] = {NULL, NULL, NULL, NULL};
+    int   r1 = tc_run("hdiff", a1, &o[0]), r2 = tc_run("hdiff", a2, &o[1]), r3 = tc_run("hdiff", a3, &o[2]), r4 = tc_run("hdiff", a4, &o[3]);
+    if (!tc_tool_crashed("hdiff", r1, o[0], g_case) && !tc_tool_crashed("hdiff", r2, o[1], g_case) && !tc_tool_crashed("hdiff", r3, o[2], g_case) && !tc_tool_crashed("hdiff", r4, o[3], g_case)) {
+        if (r1 != 0)
+            mc_violation("hdiff:not-reflexive", "%s: hdiff F F exits %d: %.300s", g_case, r1, o[0]);
+        if (r2 != 0)
+            mc_violation("hdiff:equal-files-reported-different", "%s: two files written identically: hdiff exits %d: %.300s", g_case, r2, o[1]);
+        if (r3 != 1 || r4 != 1)
+            mc_violation("hdiff:difference-not-reported:image-pixel@df24", "%s: one pixel component differs: hdiff exits %d / %d (arguments swapped)", g_case, r3, r4);
+        mc_outcome(mc_hash_i(mc_hash_i(MC_H0, 950 + idx), r1 * 100 + r2 * 10 + r3));
+    }
+    for (int i = 0; i < 4; i++)
+        free(o[i]);
+    tc_cleanup();
+    mc_count("hdiff_df24_cases", 1);
+}
+
 /* ================================================================== (c) hdp */
 /* numbers printed by hdp vs values from the API */
 static int
@@ -799,6 +843,8 @@ C19_main(const char *tier, const char *replay)
             case_import_pair(cfg[1] + (long)NIMP * cfg[2], NULL);
         else if (cfg[0] == 5)
             case_hdp_big(cfg[1], NULL);
+        else if (cfg[0] == 6)
+            case_hdiff_df24(cfg[1], NULL);
         else
             case_import(cfg[1] + (long)NIMP * cfg[2], NULL);
         printf("replay C19: %s (files kept in %s)\n", g_case, tc_work);
@@ -813,6 +859,9 @@ C19_main(const char *tier, const char *replay)
     mc_round_end();
     mc_round_begin("hdiff: large and little-endian data sets");
     mc_foreach(6, case_hdiff_special, NULL, 1, 300);
+    mc_round_end();
+    mc_round_begin("hdiff: 24-bit images written by DF24 in every interlace");
+    mc_foreach(6, case_hdiff_df24, NULL, 1, 300);
     mc_round_end();
     mc_round_begin("hdp");
     mc_foreach(6, case_hdp, NULL, 1, 300);
